@@ -47,7 +47,7 @@ PROBES = ["image_moved_between_redraws", "image_disappeared", "bare_non_composit
           "ghost_free_redraws", "returned_to_earlier_layout",
           "kitty_style_by_forced_support", "grid_row_redivided",
           "kitty_widget_spec_with_z_index_field", "redraw_interrupted",
-          "images_rerendered_in_place"]
+          "images_rerendered_in_place", "stray_image_before_start"]
 COMPONENTS = {
     "real": ["UrwidImageScreen (draw_screen, clear, clear_images, _start, _stop, "
              "_ti_clear_images)", "UrwidImage / UrwidImageCanvas", "KittyImage / ITerm2Image / "
@@ -378,8 +378,8 @@ def run(ch, ctx, fault=None):
         ctx.op("terminal %dx%d cell=%s profile=%s %s; pool=%s" %
                (cols, rows, cell, name, version, [d["desc"] for d in pool]))
 
-        def do_start():
-            screen.start()
+        def do_start(alternate_buffer=True):
+            screen.start(alternate_buffer=alternate_buffer)
             screen.flush()
             out.drain()
             started[0] = True
@@ -619,9 +619,30 @@ def run(ch, ctx, fault=None):
                 out.drain()
                 check(not vt.placements, "images_not_cleared_on_stop",
                       {"placements": vt.placement_keys()}, "stop")
-                do_start()
+                alt = ch.bool("alternate_buffer", 0.6)
+                stray = kg and ch.bool("stray_image", 0.5)
+                if stray:
+                    # something else (an earlier run that died, another program) left an image
+                    # on the terminal before the screen is started again
+                    ti_image.KittyImage.forced_support = True
+                    s_ = str(ti_image.KittyImage(Image.new("RGB", (4, 4), (200, 10, 10)),
+                                                 width=2))
+                    vt.r, vt.c = min(1, vt.rows - 1), 0
+                    vt.feed(s_.encode().replace(b"\n", b"\r\n"))
+                    ctx.probe("stray_image_before_start")
+                do_start(alt)
+                if not alt:
+                    # (without the alternate buffer urwid paints relative to wherever the cursor
+                    # happens to be: the redraw oracle compares absolute positions, so the
+                    # history goes on in the alternate buffer)
+                    screen.stop()
+                    out.drain()
+                    check(not vt.placements, "images_not_cleared_on_stop",
+                          {"placements": vt.placement_keys()}, "stop")
+                    do_start(True)
                 last_geo[0] = None
-                desc = "stop(); start()"
+                desc = "stop(); %sstart(alternate_buffer=%s)" % (
+                    "stray image; " if stray else "", alt)
                 ctx.probe("stop_start_cycle")
             ctx.op(desc)
             key.append(desc)
